@@ -444,9 +444,16 @@ impl<Writer: Write> Mp4Writer<Writer> {
     }
 
     pub(crate) fn max_end_pts(&self) -> Option<u64> {
+        // Largest presentation end time (pts + duration) over all samples; with
+        // reordered (B-frame) streams this is not the last sample in decode order.
         fn track_end(samples: &[SampleInfo], last_delta: Option<u32>) -> Option<u64> {
-            let last = samples.last()?;
-            Some(last.pts + u64::from(last_delta.unwrap_or(0)))
+            samples
+                .iter()
+                .map(|sample| {
+                    let duration = sample.duration.or(last_delta).unwrap_or(0);
+                    sample.pts.saturating_add(u64::from(duration))
+                })
+                .max()
         }
 
         let video_end = track_end(&self.video_samples, self.video_last_delta);
